@@ -54,6 +54,8 @@ type EvalCtx struct {
 	fc     *FuncContract
 	pkg    *types.Package
 	depth  int
+	atCallSite bool
+	callStates map[string]*State
 }
 
 type evalErr string
@@ -68,6 +70,13 @@ func (vc *VC) parseType(s string, pkg *types.Package) *GType {
 		return &GType{Kind: "int"}
 	case "bool":
 		return &GType{Kind: "bool"}
+	}
+	if strings.HasPrefix(s, "gomap[") {
+		t := vc.eng.parseGoTypeExpr(s[2:], pkg)
+		if t == nil {
+			panic(evalErr("cannot resolve type " + s))
+		}
+		return &GType{Kind: "go", Go: t}
 	}
 	if strings.HasPrefix(s, "map[") {
 		depth := 0
@@ -86,6 +95,9 @@ func (vc *VC) parseType(s string, pkg *types.Package) *GType {
 		}
 	}
 	t := vc.eng.parseGoType(s, pkg)
+	if t == nil {
+		t = vc.eng.parseGoTypeExpr(s, pkg)
+	}
 	if t == nil {
 		panic(evalErr("cannot resolve type " + s))
 	}
@@ -199,6 +211,13 @@ func (ctx *EvalCtx) evalBool(e *CExpr, c *Clause) (res *Term) {
 
 func (fr *Frame) ctx(st *State, li *loopInfo) *EvalCtx {
 	ctx := &EvalCtx{vc: fr.vc, st: st, old: fr.old, inst: fr.inst, fc: fr.fc, pkg: fr.fn.Pkg.Pkg, bound: map[string]TV{}}
+	{
+		top := fr
+		for top.parent != nil {
+			top = top.parent
+		}
+		ctx.callStates = top.callStates
+	}
 	if ctx.inst == nil {
 		ctx.inst = leaf("0")
 	}
@@ -482,7 +501,7 @@ func (ctx *EvalCtx) addrOf(e *CExpr) (*Term, types.Type) {
 		x := ctx.eval(e.X)
 		i := ctx.eval(e.Y)
 		if st, ok := x.typ.Underlying().(*types.Slice); ok {
-			return app("eaddr", app("s.arr", x.t), mkAdd(app("s.off", x.t), i.t)), st.Elem()
+			return app("selem", x.t, i.t), st.Elem()
 		}
 	case "unop":
 		if e.Name == "*" {
@@ -624,7 +643,7 @@ func (ctx *EvalCtx) index(e *CExpr) TV {
 	if x.typ != nil {
 		switch u := x.typ.Underlying().(type) {
 		case *types.Slice:
-			a := app("eaddr", app("s.arr", x.t), mkAdd(app("s.off", x.t), i.t))
+			a := app("selem", x.t, i.t)
 			return TV{t: vc.load(ctx.st, u.Elem(), a), typ: u.Elem()}
 		case *types.Map:
 			kv, sv := vc.mapValKey(u)
@@ -888,6 +907,23 @@ func (ctx *EvalCtx) call(e *CExpr) TV {
 			f = lf.idx
 		}
 		return intTV(app(f, arg(0).t))
+	case "at":
+		// at(callee, e): value of e in the state just before the (last) call of callee in this function.
+		// Seen from a caller of the function under contract it is some unknown value.
+		if len(e.Args) != 2 || e.Args[0].Kind != "ident" {
+			ctx.fail("at(callee, expr)")
+		}
+		if ctx.atCallSite {
+			probe := ctx.eval(e.Args[1])
+			nm := quoteSym(fmt.Sprintf("at:%s:%s:%s", e.Args[0].Name, e.Args[1].String(), ctx.inst))
+			vc.decl(fmt.Sprintf("(declare-const %s %s)", nm, probe.sort(vc)))
+			return TV{t: leaf(nm), typ: probe.typ, g: probe.g}
+		}
+		stt, ok := ctx.callStates[e.Args[0].Name]
+		if !ok {
+			ctx.fail("at(%s, ...): no such call in this function", e.Args[0].Name)
+		}
+		return ctx.with(stt).eval(e.Args[1])
 	case "pre":
 		if ctx.pre == nil {
 			ctx.fail("pre() only inside loop invariants")
@@ -1118,8 +1154,8 @@ func (vc *VC) deepEq(st *State, ta types.Type, a *Term, tb types.Type, b *Term, 
 			return mkAnd(mkEq(mkEq(app("s.arr", a), leaf("0")), mkEq(app("s.arr", b), leaf("0"))), mkEq(app("s.len", a), app("s.len", b)), mkEq(sv(a), sv(b)))
 		}
 		iv := fmt.Sprintf("di%d", depth)
-		ea := vc.load(st, el, leaf(fmt.Sprintf("(eaddr (s.arr %s) (+ (s.off %s) %s))", a, a, iv)))
-		eb := vc.load(st, el, leaf(fmt.Sprintf("(eaddr (s.arr %s) (+ (s.off %s) %s))", b, b, iv)))
+		ea := vc.load(st, el, leaf(fmt.Sprintf("(selem %s %s)", a, iv)))
+		eb := vc.load(st, el, leaf(fmt.Sprintf("(selem %s %s)", b, iv)))
 		body := vc.deepEq(st, el, ea, el, eb, depth+1)
 		q := leaf(fmt.Sprintf("(forall ((%s Int)) (=> (and (<= 0 %s) (< %s (s.len %s))) %s))", iv, iv, iv, a, body))
 		return mkAnd(mkEq(mkEq(app("s.arr", a), leaf("0")), mkEq(app("s.arr", b), leaf("0"))), mkEq(app("s.len", a), app("s.len", b)), q)
